@@ -352,7 +352,7 @@ Section Main.
 Variables (g : list (list nat * expr)) (funs : list (list nat * expr))
           (ignored : option nat) (t : list nat) (rx : nat -> nat -> option nat).
 
-Notation PEG := (peg g ignored t rx).
+Notation PEG := (peg g funs ignored t rx).
 Notation EXEC := (exec true g funs ignored t rx).
 
 (* the static scope is exactly the domain of the lexical environment *)
@@ -396,7 +396,9 @@ Lemma all_Forall sc es :
   (fix all (l : list expr) : Prop := match l with [] => True | x :: l' => wf sc x /\ all l' end) es -> Forall (wf sc) es.
 Proof. induction es as [|x es IH]; intros H; constructor; destruct H; auto. Qed.
 
-Hypothesis Hg : forall r b, nth_error g r = Some ([], b) -> wf [] b.
+(* every rule body is well formed in the scope of its parameters; so is every lifted argument function *)
+Hypothesis Hg : forall r ps b, nth_error g r = Some (ps, b) -> wf ps b.
+Hypothesis Hfuns : forall fid ps b, nth_error funs fid = Some (ps, b) -> wf ps b.
 Hypothesis Hign : forall r, ignored = Some r -> exists es, nth_error g r = Some ([], Skip es).
 
 Lemma sub_nil L : sub [] L.
@@ -460,7 +462,7 @@ Proof.
   intros ig Hig sk q v E e0 p0 s HS. destruct sk; [|cbn; auto].
   destruct ig as [r|]; [|cbn; auto].
   destruct (Hign r (eq_sym Hig)) as (es & Hes). rewrite Hes.
-  pose proof (IHn (Skip es) [] [] (fresh q) (Hg r _ Hes) scope_nil (sub_nil _)) as H.
+  pose proof (IHn (Skip es) [] [] (fresh q) (Hg r _ _ Hes) scope_nil (sub_nil _)) as H.
   unfold agree in H. cbn [pos fresh] in H.
   destruct (EXEC n (Skip es) (fresh q)) as [s1| |], (PEG n [] (Skip es) q) as [| | |v' q']; try contradiction; cbn; auto.
   - destruct H as (_ & A & _). discriminate.
@@ -573,6 +575,69 @@ Proof.
     destruct (lookup z E) as [[]|] eqn:Ez; try discriminate. rewrite (HS _ _ Ez). auto.
 Qed.
 
+(* ---- template calls ---- *)
+Lemma lookup_all_sub E L : sub E L -> forall xs vs, lookup_all xs E = Some vs -> lookup_all xs L = Some vs.
+Proof.
+  intros HS. induction xs as [|x xs IH]; intros vs H; cbn in *; auto.
+  destruct (lookup x E) as [v|] eqn:Ex; [|discriminate]. rewrite (HS _ _ Ex).
+  destruct (lookup_all xs E) as [r|]; [|discriminate]. rewrite (IH r eq_refl). exact H.
+Qed.
+Lemma eval_arg_sub E L a v : sub E L -> eval_arg E a = Some v -> eval_arg L a = Some v.
+Proof.
+  intros HS. destruct a as [r|x|py|sl sk|fid fv]; cbn; auto.
+  - apply eval_py_sub; auto.
+  - destruct (lookup_all fv E) as [vals|] eqn:El; [|discriminate]. rewrite (lookup_all_sub E L HS _ _ El). auto.
+Qed.
+Lemma bind_args_sub E L : sub E L -> forall args ps acc en,
+  bind_args E ps args acc = Some en -> bind_args L ps args acc = Some en.
+Proof.
+  intros HS. induction args as [|[[k|] a] args IH]; intros ps acc en H; cbn [bind_args] in *; auto.
+  - destruct (existsb (Nat.eqb k) ps); [|discriminate].
+    destruct (eval_arg E a) as [v|] eqn:Ea; [|discriminate]. rewrite (eval_arg_sub _ _ _ _ HS Ea). apply IH. exact H.
+  - destruct ps as [|q ps]; [discriminate|].
+    destruct (eval_arg E a) as [v|] eqn:Ea; [|discriminate]. rewrite (eval_arg_sub _ _ _ _ HS Ea). apply IH. exact H.
+Qed.
+Lemma call_target_sub E L c r : sub E L -> call_target E c = Some r -> call_target L c = Some r.
+Proof.
+  intros HS. destruct c as [r0|x]; cbn; auto.
+  destruct (lookup x E) as [v|] eqn:Ex; [|discriminate]. rewrite (HS _ _ Ex). auto.
+Qed.
+(* the callee's environment binds exactly the parameters (plus what was accumulated) *)
+Lemma bind_args_dom L : forall args ps acc en, bind_args L ps args acc = Some en ->
+  forall x, (exists v, lookup x en = Some v) <-> (In x ps \/ exists v, lookup x acc = Some v).
+Proof.
+  induction args as [|[[k|] a] args IH]; intros ps acc en H x; cbn [bind_args] in H.
+  - destruct ps; [|discriminate]. inversion H; subst. cbn. tauto.
+  - destruct (existsb (Nat.eqb k) ps) eqn:Ek; [|discriminate].
+    destruct (eval_arg L a) as [v|]; [|discriminate].
+    rewrite (IH _ _ _ H x). cbn [lookup]. rewrite filter_In.
+    apply existsb_exists in Ek. destruct Ek as (k' & Hin & Hk'). apply Nat.eqb_eq in Hk'. subst k'.
+    destruct (Nat.eqb_spec x k) as [->|Hne].
+    + split; [intros _; left; exact Hin | intros _; right; eauto].
+    + split.
+      * intros [(Hx & _)|Hx]; auto.
+      * intros [Hx|Hx]; [left; split; auto; apply negb_true_iff, Nat.eqb_neq; auto | right; exact Hx].
+  - destruct ps as [|q ps]; [discriminate|]. destruct (eval_arg L a) as [v|]; [|discriminate].
+    rewrite (IH _ _ _ H x). cbn [lookup In].
+    destruct (Nat.eqb_spec x q) as [->|Hne].
+    + split; [intros _; left; left; reflexivity | intros _; right; eauto].
+    + split; [intros [Hx|Hx]; auto | intros [[Hx|Hx]|Hx]; auto; congruence].
+Qed.
+Lemma scope_of_bind_args L ps args en : bind_args L ps args [] = Some en -> scope_of ps en.
+Proof.
+  intros H x. rewrite (bind_args_dom L args ps [] en H x). cbn. split; [auto|]. intros [Hx|(v & Hv)]; [auto|discriminate].
+Qed.
+Lemma scope_of_combine : forall ps (vs : list value), length ps = length vs -> scope_of ps (combine ps vs).
+Proof.
+  induction ps as [|q ps IH]; intros [|v vs] Hl; cbn in Hl; try discriminate.
+  - intros x. cbn. split; [intros []|intros (w & Hw); discriminate].
+  - intros x. cbn [In combine lookup]. destruct (Nat.eqb_spec x q) as [->|Hne].
+    + split; eauto.
+    + rewrite <- (IH vs ltac:(congruence) x). split; [intros [Hq|Hq]; [congruence|auto] | auto].
+Qed.
+Lemma sub_refl E : sub E E.
+Proof. intros x v H. exact H. Qed.
+
 Theorem exec_refines_peg : forall n, IHT n.
 Proof.
   induction n as [|n IHn]; intros e sc E s Hwf Hsc HS; [exact I|].
@@ -585,7 +650,7 @@ Proof.
   - (* Byte *) destruct (nth_error t (pos s)) as [c|]; [|cbn; auto].
     destruct (Nat.eqb c b); [apply after_ok; auto | cbn; auto].
   - (* Ref *) destruct (nth_error g r) as [[[|p0 ps] bd]|] eqn:Er; try exact I.
-    pose proof (IHn bd [] [] (fresh (pos s)) (Hg r bd Er) scope_nil (sub_nil _)) as H. unfold agree in *. cbn [pos fresh] in H.
+    pose proof (IHn bd [] [] (fresh (pos s)) (Hg r _ bd Er) scope_nil (sub_nil _)) as H. unfold agree in *. cbn [pos fresh] in H.
     destruct (PEG n [] bd (pos s)) as [| | |v p'], (EXEC n bd (fresh (pos s))) as [c| |]; try contradiction; cbn; auto.
     + destruct H as (A & _). repeat split; auto. intros; discriminate.
     + destruct H as (A & B & C & _). auto.
@@ -796,8 +861,39 @@ Proof.
     destruct (class_loop (EXEC n) cls (pos s) ms s []), (class_spec (PEG n) cls (pos s) ms E (pos s) []) as [| | |v p']; auto.
     + destruct H as (A & B & C). rewrite B. repeat split; auto. cbn. discriminate.
     + destruct H as (A & B & C & D). repeat split; auto.
-  - exact I.
-  - exact I.
-  - exact I.
+  - (* OpTable: specified separately *) exact I.
+  - (* RefL: a name that holds a parser *)
+    destruct (lookup x E) as [v|] eqn:Ex; [|exact I]. rewrite (HS _ _ Ex).
+    assert (Hret : forall b0 E0 sc0 s0, wf sc0 b0 -> scope_of sc0 E0 -> sub E0 (locals s0) -> pos s0 = pos s ->
+              agree E (RefL x) (pos s) (PEG n E0 b0 (pos s))
+                    (bind (EXEC n b0 s0) (fun c => Done (upd s (status c) (result c) (pos c))))).
+    { intros b0 E0 sc0 s0 Hw0 Hsc0 HS0 Hp0.
+      pose proof (IHn b0 sc0 E0 s0 Hw0 Hsc0 HS0) as H. rewrite Hp0 in H. unfold agree in *.
+      destruct (PEG n E0 b0 (pos s)) as [| | |v0 p0], (EXEC n b0 s0) as [c| |]; try contradiction; cbn [bind]; auto.
+      - destruct H as (A & _). cbn. repeat split; auto. discriminate.
+      - destruct H as (A & B & C & _). cbn. auto. }
+    destruct v as [| | | | | | | | |sl sk|r|fid given|]; try exact I.
+    + (* a literal that is also a parser *)
+      apply (Hret (Str sl sk) [] [] (fresh (pos s))); cbn; auto using scope_nil, sub_nil.
+    + (* a rule *)
+      destruct (nth_error g r) as [[[|q0 qs] bd]|] eqn:Er; try exact I.
+      apply (Hret bd [] [] (fresh (pos s))); cbn; auto using scope_nil, sub_nil. eapply Hg; eauto.
+    + (* a lifted argument expression with its captured values *)
+      destruct (nth_error funs fid) as [[ps bd]|] eqn:Ef; [|exact I].
+      destruct (Nat.eqb_spec (length ps) (length given)) as [Hl|Hl]; [|exact I].
+      apply (Hret bd (combine ps given) ps (mk0 false VNone (pos s) (combine ps given))); cbn; auto using sub_refl.
+      * eapply Hfuns; eauto.
+      * apply scope_of_combine; auto.
+  - (* Call *)
+    destruct (call_target E callee) as [r|] eqn:Et; [|exact I]. rewrite (call_target_sub _ _ _ _ HS Et).
+    destruct (nth_error g r) as [[ps bd]|] eqn:Er; [|exact I].
+    destruct (bind_args E ps args []) as [en|] eqn:Eb; [|exact I]. rewrite (bind_args_sub _ _ HS _ _ _ _ Eb).
+    pose proof (IHn bd ps en (mk0 false VNone (pos s) en) (Hg r ps bd Er)
+                    (scope_of_bind_args _ _ _ _ Eb) (sub_refl en)) as H.
+    cbn [pos] in H. unfold agree in *.
+    destruct (PEG n en bd (pos s)) as [| | |v0 p0], (EXEC n bd (mk0 false VNone (pos s) en)) as [c| |];
+      try contradiction; cbn [bind]; auto.
+    + destruct H as (A & _). cbn. repeat split; auto. discriminate.
+    + destruct H as (A & B & C & _). cbn. auto.
 Qed.
 End Main.
